@@ -8,7 +8,7 @@ From Coq Require Import PeanoNat Arith Lia.
 From AV Require Import Base.Bytes Base.Outcome Hash.HashModel Tree.Heap Tree.Ops Tree.Script Tree.IndexProofsW
   Tree.Index Tree.IndexProofsBase Tree.IndexProofsAssoc Tree.IndexProofsFrame Tree.IndexProofsAttach
   Tree.IndexProofsTree Tree.IndexProofsNamed Tree.Refs Tree.RefsProofsBase Tree.RefsProofs Tree.IndexProofsRemove
-  Tree.IndexProofsRemoveOp.
+  Tree.IndexProofsRemoveOp Tree.IndexProofsReg.
 Open Scope string_scope.
 Open Scope list_scope.
 Open Scope N_scope.
@@ -198,6 +198,148 @@ Proof.
   - apply wtry_inv in E2 as (r0 & E2 & _). eapply gp_remove_from_file; eauto.
 Qed.
 
+(* ---------- remove_file of the LAST file: every sub-element of the root is removed, the two maps are reset *)
+Definition each_root (root : id) : list citem -> W unit :=
+  fix each (l : list citem) : W unit :=
+    match l with
+    | [] => wret tt
+    | CElem c :: rest => wbind (wtry (e_remove_sub_element T root c)) (fun _ => each rest)
+    | CData _ :: rest => each rest
+    end.
+
+Lemma each_root_spec b root m ty : named T ty = false -> forall l w r w',
+  G5 b w ->
+  (exists nr, w_nodes w root = Some nr /\ n_parent nr = PModel m /\ n_type nr = ty /\ forall c, In (CElem c) (n_content nr) -> In (CElem c) l) ->
+  each_root root l w = Val (r, w') ->
+  r = OK tt /\ G5 b w' /\ exists nr', w_nodes w' root = Some nr' /\ n_parent nr' = PModel m /\ n_type nr' = ty /\ forall c, ~ In (CElem c) (n_content nr').
+Proof.
+  intros Hty. induction l as [|[c|d] rest IH]; intros w r w' HG (nr & Hnr & Hp & Ht & Hsub) H; cbn [each_root] in H.
+  - winv H. split; [reflexivity|]. split; [exact HG|]. exists nr. repeat split; auto.
+  - apply wbind_inv in H as [(u & w1 & E1 & H)|(e & E1 & _)]; [|apply wtry_inv in E1 as (? & _ & [=])].
+    apply wtry_inv in E1 as (r0 & E1 & _).
+    pose proof (gp_remove b root c w r0 w1 E1 HG) as HG1. pose proof HG as (HF & HI & _).
+    apply (IH w1 r w' HG1); [|exact H].
+    destruct (index_of (citem_is c) (n_content nr)) as [pos|] eqn:Eidx.
+    + assert (Hc : child_of w root c) by (exists nr; split; [exact Hnr|eapply index_of_citem; eauto]).
+      assert (Hty' : named T (n_type nr) = false) by (rewrite Ht; exact Hty).
+      destruct (e_remove_root_child T check_fn root c w r0 w1 nr m HF HI E1 Hnr Hp Hty' Hc)
+        as (n0 & pos0 & m0 & x0 & pp0 & K & R & Hn0 & Hidx0 & _ & _ & _ & _ & Hh' & _).
+      rewrite Hnr in Hn0. injection Hn0 as <-. rewrite Eidx in Hidx0. injection Hidx0 as <-.
+      eexists. split; [exact Hh'|]. split; [exact Hp|]. split; [exact Ht|]. intros c0 Hc0. cbn [set_content n_content] in Hc0.
+      apply (in_remove_at_citem c _ pos c0 (tf_nodup _ HF _ _ Hnr) Eidx) in Hc0 as (Hc0 & Hne).
+      destruct (Hsub c0 Hc0) as [[= E]|Hin]; [congruence|exact Hin].
+    + assert (w1 = w) as ->.
+      { destruct (e_remove_shape2 T check_fn root c w r0 w1 HF HI E1) as [(E & _)|Hr]; [exact E|].
+        destruct Hr as (n0 & pos0 & _ & _ & _ & _ & _ & Hn0 & Hidx0 & _). rewrite Hnr in Hn0. injection Hn0 as <-. congruence. }
+      exists nr. split; [exact Hnr|]. split; [exact Hp|]. split; [exact Ht|]. intros c0 Hc0.
+      destruct (Hsub c0 Hc0) as [[= E]|Hin]; [|exact Hin]. subst c0.
+      pose proof (index_of_none _ _ Eidx _ Hc0) as Hf. cbn in Hf. rewrite N.eqb_refl in Hf. discriminate.
+  - apply (IH w r w' HG); [|exact H]. exists nr. split; [exact Hnr|]. split; [exact Hp|]. split; [exact Ht|].
+    intros c0 Hc0. destruct (Hsub c0 Hc0) as [[=]|Hin]. exact Hin.
+Qed.
+
+Lemma gp_set_file_membership b e fm : pgp b (set_file_membership T e fm).
+Proof. unfold set_file_membership. gp_tac. Qed.
+
+(* the maps of a model whose root has no sub-element, is not of a named type and not of a reference type are empty *)
+Lemma cleared_inv b w m x root nr :
+  G5 b w -> model_at w m = Some x -> m_root x = root -> w_nodes w root = Some nr ->
+  named T (n_type nr) = false -> isref T (n_type nr) = false -> (forall c, ~ In (CElem c) (n_content nr)) ->
+  G5 b (mkWorld (w_nodes w) (w_next w) (w_files w) (list_set (w_models w) (N.to_nat m) (set_origins (set_idents x []) []))).
+Proof.
+  intros (HF & HI & HL & H5) Hx Hroot Hnr Hnn Hnref Hnokids.
+  set (w' := mkWorld (w_nodes w) (w_next w) (w_files w) (list_set (w_models w) (N.to_nat m) (set_origins (set_idents x []) []))).
+  assert (Hm' : w_models w' = list_set (w_models w) (N.to_nat m) (set_origins (set_idents x []) [])) by reflexivity.
+  assert (Hsame : model_at w' m = Some (set_origins (set_idents x []) [])) by (eapply model_at_set_same; eauto).
+  assert (Hother : forall m2, m2 <> m -> model_at w' m2 = model_at w m2) by (intros m2 Hne; eapply model_at_set_other; eauto).
+  assert (HSE : SE w w').
+  { split; [intros j; reflexivity|]. split; [reflexivity|]. rewrite Hm'. clear -Hx. unfold model_at in Hx. revert Hx.
+    generalize (N.to_nat m). generalize (w_models w). induction l as [|y l IH]; intros [|k] H; cbn in *; try discriminate; auto.
+    - injection H as ->. reflexivity.
+    - f_equal. auto. }
+  assert (Hdp : forall a i q, dpath T w' a i q <-> dpath T w a i q).
+  { intros a i q. split; intros H; induction H as [|p c q Hp IH Hc];
+      [constructor|exact (dp_step T w a p c q IH Hc)|constructor|exact (dp_step T w' a p c q IH Hc)]. }
+  assert (Hreach_m : forall i, MReach T w m i -> i = root).
+  { intros i (y & Hy & (q & Hd)). rewrite Hx in Hy. injection Hy as <-. rewrite Hroot in Hd.
+    destruct (dpath_head T _ _ _ _ Hd) as [(E & _)|(c & q' & (n0 & Hn0 & Hc) & _)]; [exact E|]. rewrite Hnr in Hn0. injection Hn0 as <-.
+    exfalso. eapply Hnokids; eauto. }
+  assert (Hmr : forall m2 i, MReach T w' m2 i <-> MReach T w m2 i).
+  { intros m2 i. unfold MReach, reach. destruct (N.eq_dec m2 m) as [->|Hne].
+    - rewrite Hsame, Hx. cbn [set_origins set_idents m_root]. split; intros (y & [= <-] & (q & Hd)); eexists; (split; [reflexivity|]); exists q; apply Hdp; exact Hd.
+    - rewrite (Hother m2 Hne). split; intros (y & Hy & (q & Hd)); exists y; (split; [exact Hy|]); exists q; apply Hdp; exact Hd. }
+  assert (Hps_other : forall m2 p i, m2 <> m -> (PathSet T w' m2 p i <-> PathSet T w m2 p i)).
+  { intros m2 p i Hne. unfold PathSet. rewrite Hmr. unfold SpecPath, spath. rewrite (Hother m2 Hne).
+    split; intros (H1 & H2 & (y & Hy & (q & Hd & ->))); (split; [exact H1|]); (split; [exact H2|]); exists y; (split; [exact Hy|]); exists q;
+      (split; [apply Hdp; exact Hd|reflexivity]). }
+  split; [eapply TreeFacts_se; eauto|]. split; [|split].
+  - pose proof HI as [I1 I2 I3 IL I4 I5]. constructor; try assumption.
+    + intros m2 y Hy p i. destruct (N.eq_dec m2 m) as [->|Hne].
+      * rewrite Hsame in Hy. injection Hy as <-. cbn [set_origins set_idents m_idents assoc_get]. split; [discriminate|].
+        intros (Hr & Hid & _). exfalso. apply Hmr in Hr. rewrite (Hreach_m i Hr) in Hid.
+        unfold identifiable in Hid. cbn [w' w_nodes] in Hid. rewrite Hnr in Hid. unfold identifiable_n in Hid. rewrite Hnn in Hid. discriminate.
+      * rewrite (Hother m2 Hne) in Hy. rewrite (Hps_other m2 p i Hne). apply (I4 m2 y Hy).
+    + intros m2 y Hy. destruct (N.eq_dec m2 m) as [->|Hne].
+      * rewrite Hsame in Hy. injection Hy as <-. constructor.
+      * rewrite (Hother m2 Hne) in Hy. apply (I5 m2 y Hy).
+  - exact HL.
+  - intros Hb. destruct (H5 Hb) as [IE IT]. constructor.
+    + intros m2 y Hy p. destruct (N.eq_dec m2 m) as [->|Hne].
+      * rewrite Hsame in Hy. injection Hy as <-. unfold origins_of. cbn [set_origins m_origins assoc_get]. split; [constructor|].
+        intros r. split; [intros []|]. intros (Hr & Ht). apply Hmr in Hr. rewrite (Hreach_m r Hr) in Ht.
+        unfold ref_text in Ht. cbn [w' w_nodes] in Ht. rewrite Hnr, Hnref in Ht. discriminate.
+      * rewrite (Hother m2 Hne) in Hy. destruct (IE m2 y Hy p) as (H1 & H2). split; [exact H1|]. intros r. rewrite H2. unfold RefSet. rewrite Hmr. reflexivity.
+    + intros m2 y Hy. destruct (N.eq_dec m2 m) as [->|Hne].
+      * rewrite Hsame in Hy. injection Hy as <-. cbn. split; [constructor|]. intros p l [].
+      * rewrite (Hother m2 Hne) in Hy. apply (IT m2 y Hy).
+Qed.
+
+Lemma gp_remove_file_last b m f w r w' :
+  TreeFacts w -> root_unplain T w m = false -> last_file w m f = true -> m_remove_file T m f w = Val (r, w') -> GP b w w'.
+Proof.
+  intros HF0 Hplain HL H HG. unfold m_remove_file in H. wmodel H x Hx. unfold last_file, model_at in HL. rewrite Hx in HL.
+  destruct (index_of (N.eqb f) (m_files x)) as [pos|]; [|discriminate].
+  wbind_w H u w1 E1. 2:{ apply set_model_inv in E1 as ([=] & _). }
+  apply set_model_inv in E1 as (_ & ->). rewrite HL in H.
+  set (w1 := mkWorld (w_nodes w) (w_next w) (w_files w) (list_set (w_models w) (N.to_nat m) (set_mfiles x (swap_remove_at (m_files x) pos)))) in *.
+  assert (HG1 : G5 b w1) by (apply (gp_fo b w w1); [apply fo_set_mfiles; exact Hx|exact HG]).
+  destruct (tf_roots _ HF0 m x Hx) as (nr & Hnr & Hpr).
+  unfold root_unplain, model_at in Hplain. rewrite Hx in Hplain. apply orb_false_iff in Hplain as (Hnn & Hnref).
+  unfold named_node in Hnn. unfold is_ref_node in Hnref. rewrite Hnr in Hnn, Hnref.
+  wnode H r0 Hr0. assert (r0 = nr) by (cbn in Hr0; congruence). subst r0.
+  assert (Hex : exists nr0, w_nodes w1 (m_root x) = Some nr0 /\ n_parent nr0 = PModel m /\ n_type nr0 = n_type nr /\
+                 forall c, In (CElem c) (n_content nr0) -> In (CElem c) (n_content nr)).
+  { exists nr. repeat split; auto. }
+  wbind_w H u2 w2 E2.
+  2:{ exfalso. destruct (each_root_spec b (m_root x) m (n_type nr) Hnn (n_content nr) w1 _ _ HG1 Hex E2) as ([=] & _). }
+  destruct (each_root_spec b (m_root x) m (n_type nr) Hnn (n_content nr) w1 _ _ HG1 Hex E2) as (_ & HG2 & nr2 & Hnr2 & Hp2 & Ht2 & Hk2).
+  wbind_w H u3 w3 E3.
+  2:{ exfalso. revert E3. unfold set_file_membership. intros E3. wnode E3 n3 Hn3. wbind_ro E3 p3 Ep3; [|apply wtry_inv in Ep3 as (? & _ & [=])].
+      wbind_w E3 ps w4 E4.
+      - destruct (is_empty [] || ps); [apply modify_node_inv in E3 as (? & _ & [=] & _)|winv E3].
+      - destruct p3 as [[pi|]|]; try (winv E4). wnode E4 pn Hpn. wval E4 sv Hsv. winv E4. }
+  pose proof (gp_set_file_membership b (m_root x) [] w2 _ w3 E3 HG2) as HG3.
+  (* the root node after the file-membership reset *)
+  assert (Hnr3 : exists nr3, w_nodes w3 (m_root x) = Some nr3 /\ n_type nr3 = n_type nr /\ n_content nr3 = n_content nr2 /\ n_parent nr3 = PModel m).
+  { unfold set_file_membership in E3. wnode E3 n3 Hn3. rewrite Hnr2 in Hn3. injection Hn3 as <-.
+    apply wbind_inv in E3 as [(p3 & wa & Ep3 & E3)|(e3 & _ & [=])].
+    assert (wa = w2) as -> by (refine ((_ : ro (wtry (parent_of nr2))) _ _ _ Ep3); ro_tac).
+    apply wbind_inv in E3 as [(ps & wb & E4 & E3)|(e3 & _ & [=])].
+    assert (wb = w2) as ->.
+    { destruct p3 as [[pi|]|]; try (apply wret_inv in E4 as (_ & ->); reflexivity).
+      refine ((_ : ro (do pn <- get_node pi; do s0 <- wl (splittable T (n_type pn)); wret (negb (s0 =? 0)))%W) _ _ _ E4). ro_tac. }
+    cbn [is_empty orb] in E3. apply modify_node_inv in E3 as (n4 & Hn4 & _ & ->). rewrite Hnr2 in Hn4. injection Hn4 as <-.
+    eexists. cbn. rewrite upd_eq. split; [reflexivity|]. split; [exact Ht2|]. split; [reflexivity|exact Hp2]. }
+  destruct Hnr3 as (nr3 & Hnr3 & Ht3 & Hc3 & Hp3).
+  apply modify_model_inv in H as (y & Hy & _ & ->).
+  pose proof HG3 as (HF3 & _).
+  destruct (tf_pmodel _ HF3 _ _ m Hnr3 Hp3) as (x3 & Hx3 & Hr3). assert (x3 = y) by (unfold model_at in Hx3; congruence). subst x3.
+  apply (cleared_inv b w3 m y (m_root x) nr3 HG3 Hx3 Hr3 Hnr3).
+  - rewrite Ht3. exact Hnn.
+  - rewrite Ht3. exact Hnref.
+  - intros c. rewrite Hc3. apply Hk2.
+Qed.
+
 (* ---------- the two operations *)
 Theorem C45_remove_from_file b e f w r w' :
   TreeFacts w -> Inv04 w -> (b = true -> Inv05 T w) -> Known04 T LATEST w (OpRemoveFromFile e f) = false ->
@@ -210,12 +352,13 @@ Qed.
 
 Theorem C45_remove_file b m f w r w' :
   TreeFacts w -> Inv04 w -> (b = true -> Inv05 T w) -> Known04 T LATEST w (OpRemoveFile m f) = false ->
-  last_file w m f = false ->
   m_remove_file T m f w = Val (r, w') -> TreeFacts w' /\ Inv04 w' /\ (b = true -> Inv05 T w').
 Proof.
-  intros HF HI H5 HK HLF H. cbn in HK.
-  destruct (gp_remove_file b m f w r w' HLF H) as (HF' & HI' & _ & H5'); [|auto].
-  split; [exact HF|]. split; [exact HI|]. split; [apply late_short_false; assumption|exact H5].
+  intros HF HI H5 HK H. cbn [Known04] in HK. apply orb_false_iff in HK as (HK & HK2).
+  assert (HG : G5 b w) by (split; [exact HF|]; split; [exact HI|]; split; [apply late_short_false; assumption|exact H5]).
+  destruct (last_file w m f) eqn:EL.
+  - cbn [andb] in HK2. destruct (gp_remove_file_last b m f w r w' HF HK2 EL H HG) as (HF' & HI' & _ & H5'). auto.
+  - destruct (gp_remove_file b m f w r w' EL H HG) as (HF' & HI' & _ & H5'). auto.
 Qed.
 
 End FilesOps.
